@@ -236,6 +236,12 @@ fn apply_model(m: &mut BTreeMap<String, MNode>, op: &Op) -> Result<(), i32> {
                 return Err(libc::EPERM);
             }
             let (d, leaf) = parent_of(m, dst)?;
+            let max_lid_of_model = {
+                fn max_lid(m: &BTreeMap<String, MNode>) -> u64 {
+                    m.values().map(|n| match n { MNode::File { lid, .. } => *lid, MNode::Dir { children, .. } => max_lid(children), _ => 0 }).max().unwrap_or(0)
+                }
+                max_lid(m)
+            };
             let dir = model_dir_mut(m, &d).ok_or(libc::ENOENT)?;
             if dir.contains_key(&leaf) {
                 return Err(libc::EEXIST);
@@ -244,7 +250,9 @@ fn apply_model(m: &mut BTreeMap<String, MNode>, op: &Op) -> Result<(), i32> {
             let (mut s, mut fresh) = (s, 0u64);
             if let MNode::File { lid, .. } = &mut s {
                 if *lid == 0 {
-                    *lid = vkit::prng::hash_str(src) | 1;
+                    // a group id no other group of the model uses (a name can be deleted and re-created,
+                    // so an id derived from the path would alias the group of the file it used to name)
+                    *lid = max_lid_of_model + 1;
                     fresh = *lid;
                 }
             }
